@@ -151,6 +151,29 @@ def known_for_line(prop, case, ln, known, cache={}):
     return None
 
 
+def defect_repaired(case, ta_lines, tb_lines):
+    """True when, in this case, every direct observation of a register produced by the defective conversion (D1:
+    `conv B` of a table) meets the specification although it differs from the model of the defect: the conversion
+    itself is right here, so the defect seems repaired. The specification of *later* lines is computed along the
+    model of the defect (declared inputs of expressions are structural), so their Tier B verdicts mean nothing
+    then; what remains true is that the model and its theorems about the current conversion no longer describe the
+    code, which is reported as a broken correspondence."""
+    per_line, taint = dataflow(case["lines"])
+    kinds_src = set()
+    reg = -1
+    for idx, ln in enumerate(case["lines"]):
+        t = ln.split()
+        if t[0] == "r":
+            reg += 1
+            if t[1] == "conv" and t[2] == "B":
+                ops, _ = per_line[idx]
+                # a source: the operand is a table (the only way the taint starts at this line)
+                if "conv_B_of_T" in taint[reg] and not any("conv_B_of_T" in taint[o] for o in ops): kinds_src.add(reg)
+    direct = [idx + 1 for idx, (ops, defined) in enumerate(per_line) if defined is None and ops and set(ops) <= kinds_src]
+    if not direct: return False
+    return all(l not in tb_lines for l in direct) and any(l in ta_lines for l in direct)
+
+
 def write_replay(prop, tag, case, ta, tb, impl, model, note=""):
     os.makedirs(common.REPLAYS, exist_ok=True)
     path = os.path.join(common.REPLAYS, "%s_%s_%s.json" % (prop, tag, case["id"] if case else "gate"))
@@ -217,7 +240,8 @@ def check(prop, tier, seed):
             pyfail = []
             for (cid, ln), ppay in py.items():
                 why = diff.compare_python(ppay, impl.get((cid, ln)), byid[cid]["lines"][ln - 1], model.get((cid, ln)))
-                if why and not known_for_line(prop, byid[cid], ln, load_known()): pyfail.append((cid, ln, why))
+                # no exemption for known findings here: on defective data too the Python call must return what the Rust call returns
+                if why: pyfail.append((cid, ln, why))
             missing_lines = [k for k in impl if k not in py]
             methods = common.python_methods()
             uncalled = sorted(m for m in methods if m not in called)
@@ -256,15 +280,22 @@ def check(prop, tier, seed):
     known_hit = collections.Counter()
     tierA, tierB = [], []
     for c, ta, tb in results:
-        # failures on data that descends from a listed known finding are that finding, nothing new;
-        # the model only mirrors the defect there, so a correspondence mismatch on such data is ignored too
+        # a failure on data that descends from a listed known finding is that finding, nothing new -- provided
+        # the implementation does there exactly what the model of the defect does (the model mirrors D1: Tier A
+        # holds on the line). A line where it does something else again is a different violation and is reported.
         tb2, ta2 = [], []
+        ta_lines = {ln for ln, ks in ta}
+        tb_lines = {ln for ln, fs in tb}
+        repaired = defect_repaired(c, ta_lines, tb_lines) if (ta and tb) else False
         for ln, fs in tb:
             k = known_for_line(prop, c, ln, known)
-            if k: known_hit[k["id"] + " " + k["what"]] += 1
+            if k and ln not in ta_lines: known_hit[k["id"] + " " + k["what"]] += 1
+            elif k and repaired: pass   # see defect_repaired: left to the correspondence report below
             else: tb2.append((ln, fs))
-        for ln, ks in ta:
-            if not known_for_line(prop, c, ln, known): ta2.append((ln, ks))
+        # correspondence mismatches count everywhere: where the code leaves the model of the recorded defect without
+        # failing the specification (the defect was repaired?) the theorems about the current conversion no longer
+        # speak about the code, which is reported as such (no-failing-input-found)
+        ta2 = list(ta)
         if ta2: tierA.append((c, ta2, tb2))
         if tb2: tierB.append((c, ta2, tb2))
     reported = 0
@@ -280,7 +311,8 @@ def check(prop, tier, seed):
         # the code no longer does what the model says, and no generated case violates the property
         c, ta, tb = tierA[0]
         path = write_replay(prop, "correspondence", c, ta, tb, impl, model,
-                            note="correspondence impl == model broke on %d cases; the theorems %s no longer speak about this code; no case violating the property was found among %d" % (len(tierA), ", ".join(theorems), len(cases)))
+                            note="correspondence impl == model broke on %d cases; the theorems %s no longer speak about this code; no case violating the property was found among %d%s" % (len(tierA), ", ".join(theorems), len(cases),
+                                  "; the mismatching lines work on data of known finding(s) %s: if that defect was repaired in the source, the model of the defect (and its entry in known_findings.json) is what has to change" % ",".join(sorted({k["id"] for c_, ta_, tb_ in tierA for ln_, ks_ in ta_ for k in [known_for_line(prop, c_, ln_, known)] if k})) if any(known_for_line(prop, c_, ln_, known) for c_, ta_, tb_ in tierA for ln_, ks_ in ta_) else ""))
         print("VIOLATION property=%s replay=%s no-failing-input-found" % (prop, path))
         violations += 1
     if problems and not (tierA or tierB):
